@@ -50,7 +50,7 @@ use tako::resources::{
 use tako::server::SchedulerConfig;
 use tako::verif::{SimServer, SimWorker, task_id_num};
 use tako::worker::{ServerLostPolicy, WorkerConfiguration};
-use tako::{JobId, JobTaskId, WorkerId};
+use tako::{JobId, JobTaskId, Set, WorkerId};
 
 use crate::panics;
 
@@ -175,6 +175,10 @@ pub struct Profile {
     pub forgets: u32,
     #[serde(default = "yes")]
     pub drain: bool,
+    #[serde(default)]
+    pub prunes: u32,
+    #[serde(default)]
+    pub queue_events: u32,
 }
 
 fn yes() -> bool {
@@ -207,6 +211,8 @@ pub enum Choice {
     FlushAck,
     FailLaunch { t: u64 },
     Query { job: u32 },
+    Prune,
+    QueueEvent { kind: u32 },
 }
 
 // ------------------------------------------------------------------------------------------
@@ -372,6 +378,19 @@ pub struct Cluster {
     pub jobs: BTreeSet<u32>,
     pub open_jobs: BTreeSet<u32>,
     pub dead: bool,
+    pub prunes: Vec<PruneLog>,
+    pub n_prunes: u32,
+    pub n_queue_events: u32,
+    queues_live: BTreeSet<u32>,
+    next_queue: u32,
+    next_alloc: u32,
+}
+
+pub struct PruneLog {
+    pub before: Vec<Event>,
+    pub after: Vec<Event>,
+    pub live_jobs: Vec<u32>,
+    pub live_workers: Vec<u32>,
 }
 
 const HOUR: Duration = Duration::from_secs(3600);
@@ -481,8 +500,33 @@ pub fn event_json(p: &EventPayload) -> Value {
         }
         EventPayload::WorkerOverviewReceived(_) => json!({"k": "Overview"}),
         EventPayload::Submit {
-            job_id, closed_job, ..
-        } => json!({"k": "Submit", "j": job_id.as_num(), "closed": closed_job}),
+            job_id,
+            closed_job,
+            serialized_desc,
+        } => {
+            let mut tasks: Vec<Value> = Vec::new();
+            let mut max_fails: i64 = -1;
+            if let Ok(req) = serialized_desc.deserialize() {
+                let req: SubmitRequest = req;
+                max_fails = req.job_desc.max_fails.map(|x| x as i64).unwrap_or(-1);
+                match &req.submit_desc.task_desc {
+                    JobTaskDescription::Array { ids, .. } => {
+                        for id in ids.iter() {
+                            tasks.push(json!({"id": id, "deps": []}));
+                        }
+                    }
+                    JobTaskDescription::Graph { tasks: ts, .. } => {
+                        for t in ts {
+                            let mut deps: Vec<u32> = t.task_deps.iter().map(|d| d.as_num()).collect();
+                            deps.sort_unstable();
+                            deps.dedup();
+                            tasks.push(json!({"id": t.id.as_num(), "deps": deps}));
+                        }
+                    }
+                }
+            }
+            json!({"k": "Submit", "j": job_id.as_num(), "closed": closed_job, "tasks": tasks, "max_fails": max_fails})
+        }
         EventPayload::JobCompleted(j) => json!({"k": "JobCompleted", "j": j.as_num()}),
         EventPayload::JobOpen(j, _) => json!({"k": "JobOpen", "j": j.as_num()}),
         EventPayload::JobClose(j) => json!({"k": "JobClose", "j": j.as_num()}),
@@ -700,6 +744,12 @@ impl Cluster {
             jobs: BTreeSet::new(),
             open_jobs: BTreeSet::new(),
             dead: false,
+            prunes: Vec::new(),
+            n_prunes: 0,
+            n_queue_events: 0,
+            queues_live: BTreeSet::new(),
+            next_queue: 1,
+            next_alloc: 1,
         };
         // Register the request classes up-front (stable class ids = profile indices)
         for class in &profile.classes {
@@ -796,7 +846,32 @@ impl Cluster {
                             let _ = tx.send(e.clone());
                         }
                     }
-                    EventStreamMessage::PruneJournal { callback, .. } => {
+                    EventStreamMessage::PruneJournal {
+                        callback,
+                        live_jobs,
+                        live_workers,
+                    } => {
+                        // what streaming_process does: flush, prune into a new file, continue appending to it
+                        self.flushed = self.journal.len();
+                        match crate::journal::prune_events(self._tmp.path(), &self.journal, &live_jobs, &live_workers) {
+                            Ok(after) => {
+                                let mut lj: Vec<u32> = live_jobs.iter().map(|j| j.as_num()).collect();
+                                lj.sort_unstable();
+                                let mut lw: Vec<u32> = live_workers.iter().map(|w| w.as_num()).collect();
+                                lw.sort_unstable();
+                                self.prunes.push(PruneLog {
+                                    before: self.journal.clone(),
+                                    after: after.clone(),
+                                    live_jobs: lj,
+                                    live_workers: lw,
+                                });
+                                self.journal = after;
+                                self.flushed = self.journal.len();
+                            }
+                            Err(e) => {
+                                self.ev.push(json!({"k": "PruneFailed", "err": e}));
+                            }
+                        }
                         let _ = callback.send(());
                     }
                 }
@@ -964,6 +1039,16 @@ impl Cluster {
         }
         if self.n_ticks < p.ticks {
             out.push(Choice::Tick);
+        }
+        if client_free && self.n_prunes < p.prunes && p.journal {
+            out.push(Choice::Prune);
+        }
+        if self.n_queue_events < p.queue_events && p.journal {
+            for k in 0..3 {
+                if k == 0 || !self.queues_live.is_empty() {
+                    out.push(Choice::QueueEvent { kind: k });
+                }
+            }
         }
         if self.n_launch_fails < p.launch_fails {
             // a launch failure can be armed for a task that is on its way to a worker
@@ -1442,12 +1527,63 @@ impl Cluster {
                 }
                 ("FlushAck".into(), json!({}), r)
             }
+            Choice::Prune => {
+                self.n_prunes += 1;
+                let before = self.journal.len();
+                let resp = self.client_request(FromClientMessage::PruneJournal).await;
+                (
+                    "Prune".into(),
+                    json!({"before": before, "after": self.journal.len()}),
+                    json!({"answered": resp.is_some()}),
+                )
+            }
+            Choice::QueueEvent { kind } => {
+                self.n_queue_events += 1;
+                let ev = self.senders.events.clone();
+                let args = match kind {
+                    0 => {
+                        let q = self.next_queue;
+                        self.next_queue += 1;
+                        self.queues_live.insert(q);
+                        ev.on_allocation_queue_created(q, queue_params());
+                        json!({"kind": "created", "q": q})
+                    }
+                    1 => {
+                        let q = *self.queues_live.iter().next_back().unwrap();
+                        let a = format!("a{}", self.next_alloc);
+                        self.next_alloc += 1;
+                        ev.on_allocation_queued(q, a.clone(), 1);
+                        json!({"kind": "queued", "q": q, "a": a})
+                    }
+                    _ => {
+                        let q = *self.queues_live.iter().next().unwrap();
+                        self.queues_live.remove(&q);
+                        ev.on_allocation_queue_removed(q);
+                        json!({"kind": "removed", "q": q})
+                    }
+                };
+                self.collect().await;
+                ("QueueEvent".into(), args, json!({}))
+            }
             Choice::FailLaunch { t } => {
                 self.n_launch_fails += 1;
                 self.shared.borrow_mut().fail_launch.insert(*t);
                 ("FailLaunch".into(), json!({"t": t}), json!({}))
             }
         }
+    }
+
+    /// live jobs / workers as `handle_prune_journal` computes them
+    pub fn live_sets(&self) -> (Set<JobId>, Set<WorkerId>) {
+        let st = self.state_ref.get();
+        let lj: Set<JobId> = st.jobs().filter(|j| !j.is_terminated()).map(|j| j.job_id).collect();
+        let lw: Set<WorkerId> = st
+            .get_workers()
+            .values()
+            .filter(|w| w.is_running())
+            .map(|w| w.worker_id())
+            .collect();
+        (lj, lw)
     }
 
     fn all_job_ids(&self) -> BTreeSet<u32> {
@@ -1566,6 +1702,29 @@ fn req_job(args: &Value) -> u32 {
 fn counters_json(c: &hyperqueue::server::job::JobTaskCounters) -> Value {
     json!({"running": c.n_running_tasks, "finished": c.n_finished_tasks, "failed": c.n_failed_tasks,
            "canceled": c.n_canceled_tasks, "aborted": c.n_aborted_tasks})
+}
+
+pub fn state_name_pub(s: &JobTaskState) -> &'static str {
+    state_name(s)
+}
+
+fn queue_params() -> hyperqueue::server::autoalloc::QueueParameters {
+    hyperqueue::server::autoalloc::QueueParameters {
+        manager: hyperqueue::common::manager::info::ManagerType::Slurm,
+        max_workers_per_alloc: 1,
+        backlog: 1,
+        timelimit: Duration::from_secs(3600),
+        name: None,
+        max_worker_count: None,
+        min_utilization: 0.0,
+        additional_args: vec![],
+        worker_start_cmd: None,
+        worker_stop_cmd: None,
+        worker_wrap_cmd: None,
+        cli_resource_descriptor: None,
+        worker_args: vec![],
+        idle_timeout: None,
+    }
 }
 
 fn state_name(s: &JobTaskState) -> &'static str {
